@@ -22,7 +22,7 @@ Inductive lpc :=
 | LClosing (k : nat)     (* about to close listener k *)
 | LSignal                (* listeners closed, close(s.done) pending *)
 | LWait                  (* s.wg.Wait() *)
-| LCloseBacklog | LCloseErrors | LRet.
+| LCloseBacklog | LRet.
 
 Record lst := mklst {
   lclosed : list bool;         (* per listener: ln.Close() done *)
@@ -30,7 +30,7 @@ Record lst := mklst {
   serve : list spc;            (* one serve goroutine per listener *)
   sdone : bool;                (* s.done closed *)
   swg : nat;
-  backlog : list Z; bcap : nat; bclosed : bool; eclosed : bool;
+  backlog : list Z; bcap : nat; bclosed : bool;
   lcloser : option lpc;        (* None: Close not called yet *)
   lpanic : bool;
   handed : list Z;             (* ghost: connections handed to the backlog channel, in order *)
@@ -39,7 +39,7 @@ Record lst := mklst {
 }.
 
 #[export] Instance eta_lst : Settable _ := settable! mklst
-  <lclosed; dialq; serve; sdone; swg; backlog; bcap; bclosed; eclosed; lcloser; lpanic; handed; dropped; refused>.
+  <lclosed; dialq; serve; sdone; swg; backlog; bcap; bclosed; lcloser; lpanic; handed; dropped; refused>.
 
 Inductive lchoice :=
 | LServe (i : nat)             (* the next step of serve goroutine i (at the select: the hand-over) *)
@@ -98,10 +98,9 @@ Definition lstep (s : lst) (c : lchoice) : option lst :=
       | Some LWait => match swg s with O => Some (s <| lcloser := Some LCloseBacklog |>) | S _ => None end
       | Some LCloseBacklog =>
           if bclosed s then Some (s <| lpanic := true |>)
-          else Some (s <| bclosed := true |> <| lcloser := Some LCloseErrors |>)
-      | Some LCloseErrors =>
-          if eclosed s then Some (s <| lpanic := true |>)
-          else Some (s <| eclosed := true |> <| lcloser := Some LRet |>)
+          else Some (s <| bclosed := true |> <| lcloser := Some LRet |>)
+          (* the error channel shared with the accepted endpoints is NOT closed (fix 42cdab9): they may
+             outlive the listener and still offer their terminal error to it *)
       | Some LRet => None
       end
   | LDial i c =>
@@ -123,5 +122,5 @@ Fixpoint lrun (s : lst) (cs : list lchoice) : lst :=
 (* a server after n successful Listen calls *)
 Definition linit (n bcap_ : nat) : lst :=
   {| lclosed := repeat false n; dialq := repeat [] n; serve := repeat SAccept n; sdone := false; swg := n;
-     backlog := []; bcap := bcap_; bclosed := false; eclosed := false; lcloser := None; lpanic := false;
+     backlog := []; bcap := bcap_; bclosed := false; lcloser := None; lpanic := false;
      handed := []; dropped := []; refused := [] |}.
